@@ -84,7 +84,11 @@ MULTILINEAR = {"multiply", "outer", "dot", "matmul", "inner", "kron", "tensordot
 # functions that join arrays of one degree
 JOIN = {"concatenate", "stack", "vstack", "hstack", "column_stack", "append", "where_join", "maximum", "minimum", "add", "subtract"}
 ZERO_MAKERS = {"zeros", "zeros_like", "empty", "empty_like"}
-CONST_MAKERS = {"ones", "ones_like", "arange", "linspace", "full", "full_like", "len", "int", "bool", "range", "isnan", "isfinite", "count_nonzero", "size", "ndim", "shape"}
+CONST_MAKERS = {"ones", "ones_like", "arange", "linspace", "full", "full_like", "len", "int", "bool", "range", "isnan", "isfinite", "count_nonzero", "size", "ndim", "shape", "sign", "signbit"}
+# functions that are only meaningful on a pure number: of a degree-0 argument they give a degree-0 result, of anything
+# else the result is not homogeneous at all
+TRANSCENDENTAL = {"sin", "cos", "tan", "arcsin", "arccos", "arctan", "exp", "log", "log10", "log2", "sinh", "cosh", "tanh", "deg2rad", "rad2deg", "radians", "degrees", "asin", "acos", "atan", "clip"}
+CONST_ATTRS = {"pi", "e", "inf", "nan", "newaxis"}
 
 
 def _fn(call: ast.Call) -> str:
@@ -141,6 +145,8 @@ def degree(e: ast.AST, atom, *, depth: int = 0):
             return rec(e.value)
         if e.attr in ("shape", "ndim", "size", "dtype"):
             return CONST
+        if e.attr in CONST_ATTRS and (dotted(e.value) or "") in ("np", "numpy", "math"):
+            return CONST
         return Unknown_(f"attribute {unparse(e)[:50]}")
     if isinstance(e, ast.Call):
         fn = _fn(e)
@@ -180,6 +186,25 @@ def degree(e: ast.AST, atom, *, depth: int = 0):
                 return rec(args[0])
         if fn == "where" and len(args) == 3:
             return _join([rec(args[1]), rec(args[2])], "where")
+        if fn in ("deg2rad", "rad2deg", "radians", "degrees") and args:
+            return rec(args[0])  # (a constant factor)
+        if fn == "clip" and args:
+            # clip(v, lo, hi) with constant bounds is homogeneous only for a pure number
+            d0 = rec(args[0])
+            if isinstance(d0, Deg) and d0.exps and any(isinstance(rec(b), Deg) and not rec(b).exps for b in args[1:] if not (isinstance(b, ast.Constant) and b.value is None)):
+                return NonHom(f"clip of a {d0} quantity to fixed bounds")
+            return d0
+        if fn in TRANSCENDENTAL and (args or recv is not None):
+            d0 = rec(args[0] if args else recv)
+            if isinstance(d0, Deg) and d0.exps:
+                return NonHom(f"{fn} of a quantity of {d0}")
+            if isinstance(d0, Zero):
+                return CONST
+            return d0
+        if fn in ("arctan2", "atan2") and len(args) == 2:
+            a_, b_ = rec(args[0]), rec(args[1])
+            j = _join([a_, b_], "arctan2")
+            return CONST if isinstance(j, (Deg, Zero)) else j
         if fn == "histogram" and args:
             w = next((k.value for k in e.keywords if k.arg == "weights"), None)
             return CONST if w is None else rec(w)
